@@ -196,11 +196,38 @@ def run_monitor(mod, tier, seed):
             merged['sets'][k] |= v
         merged['inconclusive'] += res['inconclusive']
         merged['driver'].update(res['driver'])
+    # every listed finding is re-checked on every run: the witness recorded with a finding that the generated workload
+    # did not happen to hit is replayed through the monitor's own check_case (only its own signature is taken from that)
+    replayed = []
+    try:
+        missing = [(sig, f) for sig, f in load_known(prop).items() if sig not in merged['vcount'] and f.get('witness') is not None]
+        if missing and hasattr(mod, 'check_case') and not errors:
+            wctx = Ctx(prop, tier, seed, 0, 1, driver_bin, 90)
+            try:
+                for sig, f in missing:
+                    if wctx.expired():
+                        break
+                    before = len(wctx.violations)
+                    try:
+                        mod.check_case(wctx, f['witness'])
+                    except Exception:
+                        continue
+                    for v in wctx.violations[before:]:
+                        if v['sig'] == sig:
+                            merged['violations'].append(v)
+                            merged['vcount'][sig] += 1
+                            replayed.append(sig)
+                            break
+            finally:
+                if wctx.driver:
+                    wctx.driver.close()
+    except Exception:
+        pass
     post = {}
     if hasattr(mod, 'finish'):
         # cross-worker checks (e.g. global uniqueness); may add violations
         post = mod.finish(merged, tier, seed) or {}
-    post = dict(post, build_s=build_s, workers_done_s=round(time.monotonic() - t0, 1))
+    post = dict(post, build_s=build_s, workers_done_s=round(time.monotonic() - t0, 1), known_findings_confirmed_by_witness_replay=sorted(set(replayed)))
     return conclude(mod, tier, seed, merged, errors, t0, post)
 
 
